@@ -26,9 +26,9 @@ func (s *qSpec) name() string {
 
 // refQ is the boring reference: a slice (0 = hole) or a stable priority queue.
 type refQ struct {
-	l     []int
-	prio  bool
-	fifo  bool
+	l    []int
+	prio bool
+	fifo bool
 }
 
 func prioOf(id int) int { return id / 1000 }
